@@ -163,7 +163,8 @@ def impl(case):
                 body = b"payload" if rq["method"] in ("POST", "PUT") else None
                 resp = None
                 try:
-                    resp = pool.urlopen(rq["method"], "/x", body=body, retries=arg, redirect=rq.get("redirect", False), preload_content=rq["preload"], pool_timeout=0.01)
+                    kw = {} if rq.get("release") is None else {"release_conn": rq["release"]}
+                    resp = pool.urlopen(rq["method"], "/x", body=body, retries=arg, redirect=rq.get("redirect", False), preload_content=rq["preload"], pool_timeout=0.01, **kw)
                     res = [0, Z(resp.status)]
                 except urllib3.exceptions.MaxRetryError as e:
                     r = e.reason
@@ -209,6 +210,11 @@ def impl(case):
     finally:
         ur.time = old
         _STASH[id(case)] = problems
+
+
+def in_model_domain(case):
+    """the model takes release_conn at its default (= preload_content); requests that pass it explicitly are judged by the oracle only"""
+    return all(rq.get("release") is None for rq in case["reqs"])
 
 
 # ---------------------------------------------------------------- oracle
@@ -314,6 +320,9 @@ def one_case(rng, nreq=None):
              "disposal": rng.choice(["read_all", "release", "drain", "close", "close_release", "read_all", "drain"]),
              "redirect": rng.random() < 0.5} for _ in range(n)]
     script = [rand_attempt(rng) for _ in range(3 * n + 2)] + [{"connect": "ok", "send": "ok", "recv": ["resp", 200, None, True, "ok"]}] * (4 * n + 4)
+    for q in reqs:
+        if rng.random() < 0.08:
+            q["release"] = rng.random() < 0.5
     return {"maxsize": rng.choice([1, 1, 2, 3]), "block": rng.random() < 0.5, "reqs": reqs, "script": script}
 
 
@@ -335,6 +344,15 @@ def cases(rng, tier):
         for keep in (True, False):
             for body in ("ok", "short", "interrupt"):
                 firsts.append({"connect": "ok", "send": "ok", "recv": ["resp", status, 0 if status == 503 else None, keep, body]})
+    # release_conn given explicitly, agreeing or not with preload_content: who gives the connection back, and how often
+    probe = {"method": "GET", "preload": True, "retries": ["int", 0], "disposal": "read_all", "redirect": False}
+    for f in firsts:
+        for release in (True, False):
+            for preload in (True, False):
+                for disp in ("read_all", "release", "drain"):
+                    for maxsize, block in ((1, True), (2, False), (2, True)):
+                        first = {"method": "GET", "preload": preload, "release": release, "retries": ["int", 1], "disposal": disp, "redirect": True}
+                        out.append({"maxsize": maxsize, "block": block, "reqs": [first, dict(probe), dict(first), dict(probe)], "script": [f] + [ok] * 10})
     for f in firsts:
         for disp in DISP:
             for preload in (True, False):
